@@ -1,8 +1,1474 @@
-//! C04 — not implemented yet (stub).
-use crate::engine::Opts;
-pub fn main(_opts: &Opts) -> i32 {
-    eprintln!("C04: check not implemented");
-    2
+//! C04 — Turtle/TriG output (streaming or pretty) parses back to an isomorphic dataset.
+//!
+//! generator: datasets composed of fragments (random quads over a dense pool, blank-node shapes incl.
+//!            cycles with in/out tails, rdf lists well-formed and malformed, asserted-and-quoted triples,
+//!            numeric/boolean literals with valid and invalid shorthand lexicals, IRIs with awkward local
+//!            parts) x configuration {pretty on/off, prefix map, indentation, Turtle or TriG};
+//! system:    TurtleSerializer / TrigSerializer -> sophia strict turtle / trig parser;
+//! oracle:    output accepted by the parser, no statement twice, `iso::iso_exact(input, parsed)`.
+use crate::engine::*;
+use crate::gen::{dedup, Shape};
+use crate::iso;
+use crate::model::*;
+use proptest::prelude::*;
+use serde::{Deserialize, Serialize};
+use sophia_api::prefix::{Prefix, PrefixMapPair};
+use sophia_api::quad::Spog;
+use sophia_api::serializer::{QuadSerializer, Stringifier, TripleSerializer};
+use sophia_api::source::{QuadSource, TripleSource};
+use sophia_api::term::SimpleTerm;
+use sophia_iri::Iri;
+use sophia_turtle::parser::{trig, turtle};
+use sophia_turtle::serializer::trig::TrigSerializer;
+use sophia_turtle::serializer::turtle::{TurtleConfig, TurtleSerializer};
+use std::collections::{BTreeMap, BTreeSet};
+
+#[derive(Clone, Debug, Serialize, Deserialize)]
+pub struct Case {
+    pub quads: Vec<MQ>,
+    pub pretty: bool,
+    /// None = the serializer's default prefix map
+    pub prefixes: Option<Vec<(String, String)>>,
+    pub indent: String,
+    /// true: default-graph dataset through TurtleSerializer + turtle parser; false: TriG
+    pub turtle: bool,
+}
+
+pub struct C04;
+
+// ---------------------------------------------------------------- pools
+
+const NS: &[&str] = &[
+    "http://x/",
+    "http://x/ns#",
+    "http://x/ns/",
+    "http://x/ns/sub/",
+    "http://x/n",
+    "urn:x:",
+    "http://x/ns#a",
+    "http://www.w3.org/1999/02/22-rdf-syntax-ns#",
+    "http://www.w3.org/2001/XMLSchema#",
+    "http://www.w3.org/2000/01/rdf-schema#",
+    "http://\u{e9}.example/",
+    "http://x",
+    "http:",
+];
+const LOCALS: &[&str] = &[
+    "a", "b", "c", "a/b", "a.", ".a", "a.b", "%41", "a~b", "", "1", "a:b", "-a", "a-", "\u{e9}", "a,b", "_a", "a\u{b7}",
+    "\u{b7}a", "true", "s", "p", "type", "nil", "a%41b", "a..b", "1.5", "a'b", "a(b)", "a@b", "a?b", "a#", "\u{300}a", "a\u{300}",
+    ":", "a;b", "a=b", "a+b", "a!b", "a*b", "a$b", "a&b", "\u{10000}", "A.-", "x/", "/a",
+];
+const PFX: &[&str] = &[
+    "", "ex", "ns", "a", "b", "rdf", "xsd", "p.q", "\u{e9}", "x-1", "true", "false", "PREFIX", "graph", "GRAPH", "base", "A", "prefix",
+    "rdfs", "a.b-c", "x\u{b7}",
+];
+const PFX_PLAIN: &[&str] = &["", "ex", "ns", "b", "rdf", "xsd", "p.q", "\u{e9}", "x-1", "A", "rdfs", "a.b-c", "x\u{b7}"];
+const INDENTS: &[&str] = &["  ", "", " ", "\t", "    ", "\t ", "\n", "\r\n", " \r"];
+/// ASCII whitespace that is not Turtle white space (kept rare)
+const INDENTS_ODD: &[&str] = &["\u{c}", " \u{c}"];
+
+fn dense_iris() -> Vec<String> {
+    ["http://x/a", "http://x/b", "http://x/ns#a", "http://x/ns#b", "http://x/ns/sub/a", "http://x/ns#a.b", "urn:x:a", "http://x/ns/a/b"]
+        .iter()
+        .map(|s| s.to_string())
+        .collect()
+}
+fn dense_preds() -> Vec<String> {
+    vec!["http://x/p".into(), "http://x/ns#q".into(), rdf("type"), "http://x/ns/r".into()]
+}
+fn rdf_first() -> MT {
+    MT::Iri(rdf("first"))
+}
+fn rdf_rest() -> MT {
+    MT::Iri(rdf("rest"))
+}
+fn rdf_nil() -> MT {
+    MT::Iri(rdf("nil"))
+}
+
+fn iri() -> BoxedStrategy<MT> {
+    prop_oneof![
+        6 => pick(dense_iris()).prop_map(MT::Iri),
+        3 => (pick(NS.to_vec()), pick(LOCALS.to_vec())).prop_map(|(n, l)| MT::Iri(format!("{n}{l}"))),
+        1 => pick(vec![rdf("nil"), rdf("first"), rdf("rest"), rdf("type"), rdf("List"), xsd("integer"), format!("{RDFS}label")]).prop_map(MT::Iri),
+    ]
+    .boxed()
+}
+fn pred() -> BoxedStrategy<MT> {
+    prop_oneof![
+        6 => pick(dense_preds()).prop_map(MT::Iri),
+        2 => iri(),
+        1 => pick(vec![rdf("first"), rdf("rest")]).prop_map(MT::Iri),
+    ]
+    .boxed()
+}
+
+const NUM_LEX: &[&str] = &[
+    "15", "1.5", "1.", ".5", "1e", "+1", "01", "TRUE", "true", "false", "1e0", "1.5e-3", "1.e+3", ".1E0", "1x5", "x5e1", "1x5e0", "-0",
+    "+.5", "-1.", "1e+", "", " 1", "1 ", "0x1F", "INF", "NaN", "1_000", "\u{661}\u{662}", "1,5", "15\n", "1.5.", "1..5", "-", "+", ".",
+    "e1", "1E", "1.5E+05", "00.00", "--1", "1e1.5", "True", "0", "1", "a", "15 .", "1;", "tru", "false ",
+];
+fn num_dts() -> Vec<String> {
+    vec![xsd("integer"), xsd("decimal"), xsd("double"), xsd("boolean"), xsd("float"), xsd("int"), xsd("long"), xsd("nonNegativeInteger"), xsd("unsignedByte"), xsd("string"), "http://x/dt".into()]
+}
+const VALID_SHORT: &[(&str, &str)] = &[
+    ("integer", "15"), ("integer", "+1"), ("integer", "01"), ("integer", "-0"), ("decimal", "1.5"), ("decimal", ".5"),
+    ("decimal", "+.5"), ("decimal", "00.00"), ("decimal", "-1.25"), ("double", "1e0"), ("double", "1.5e-3"), ("double", "1.e+3"),
+    ("double", ".1E0"), ("double", "1.5E+05"), ("double", "-1E9"), ("boolean", "true"), ("boolean", "false"),
+];
+fn literal() -> BoxedStrategy<MT> {
+    prop_oneof![
+        5 => pick(VALID_SHORT.to_vec()).prop_map(|(d, l)| MT::Lit(l.to_string(), xsd(d))),
+        6 => (pick(NUM_LEX.to_vec()), pick(num_dts())).prop_map(|(l, d)| MT::Lit(l.to_string(), d)),
+        2 => crate::gen::lexical(6).prop_map(MT::string),
+        1 => (crate::gen::lexical(4), pick(crate::gen::tags())).prop_map(|(l, t)| MT::Lang(l, t)),
+        1 => (crate::gen::lexical(4), pick(vec![xsd("integer"), xsd("decimal"), xsd("double"), xsd("boolean"), "http://x/ns#a.b".to_string()])).prop_map(|(l, d)| MT::Lit(l, d)),
+    ]
+    .boxed()
+}
+/// shared blank node reference, resolved when fragments are assembled
+fn shared_bn() -> BoxedStrategy<MT> {
+    (0..4u8).prop_map(|k| MT::Bnode(format!("?{k}"))).boxed()
+}
+fn gpool() -> BoxedStrategy<Option<MT>> {
+    prop_oneof![
+        4 => Just(None),
+        2 => Just(Some(MT::iri("http://x/g1"))),
+        1 => Just(Some(MT::iri("http://x/ns#g2"))),
+        1 => Just(Some(MT::bn("?0"))),
+        1 => Just(Some(MT::bn("G"))),
+        1 => iri().prop_map(Some),
+    ]
+    .boxed()
+}
+fn subj_atom() -> BoxedStrategy<MT> {
+    prop_oneof![3 => iri(), 3 => shared_bn()].boxed()
+}
+fn obj_atom() -> BoxedStrategy<MT> {
+    prop_oneof![3 => iri(), 3 => shared_bn(), 4 => literal()].boxed()
+}
+fn quoted(depth: u32) -> BoxedStrategy<MT> {
+    let (s, o) = if depth > 1 {
+        (
+            prop_oneof![3 => subj_atom(), 1 => quoted(depth - 1)].boxed(),
+            prop_oneof![3 => obj_atom(), 1 => quoted(depth - 1)].boxed(),
+        )
+    } else {
+        (subj_atom(), obj_atom())
+    };
+    (s, pred(), o).prop_map(|(s, p, o)| MT::triple(s, p, o)).boxed()
+}
+fn rand_quad() -> BoxedStrategy<MQ> {
+    let s = prop_oneof![6 => subj_atom(), 1 => quoted(2)];
+    let o = prop_oneof![6 => obj_atom(), 1 => quoted(2)];
+    (s, pred(), o, gpool()).prop_map(|(s, p, o, g)| MQ::new(s, p, o, g)).boxed()
+}
+
+// ---------------------------------------------------------------- fragments
+
+/// blank-node shape, optionally with all arcs reversed (a reversed Rho is a cycle with a tail *leaving* it)
+fn frag_shape(tag: usize) -> BoxedStrategy<Vec<MQ>> {
+    let sh = prop_oneof![
+        3 => crate::gen::shape(5),
+        3 => (1..=3usize, 1..=3usize).prop_map(|(c, t)| Shape::Rho(c, t)),
+    ];
+    (sh, any::<bool>(), pick(dense_preds()), gpool(), prop::bool::weighted(0.3))
+        .prop_map(move |(sh, rev, p, g, deco)| {
+            let (n, arcs) = sh.arcs();
+            let node = |i: usize| MT::bn(format!("f{tag}_{i}"));
+            let mut out: Vec<MQ> = arcs
+                .into_iter()
+                .map(|(a, b)| if rev { (b, a) } else { (a, b) })
+                .map(|(a, b)| MQ::new(node(a), MT::iri(p.clone()), node(b), g.clone()))
+                .collect();
+            if deco {
+                for i in 0..n {
+                    out.push(MQ::new(node(i), MT::iri("http://x/ns#name"), MT::string(format!("n{i}")), g.clone()));
+                }
+            }
+            out
+        })
+        .boxed()
+}
+
+#[derive(Clone, Debug)]
+enum Item {
+    T(MT),
+    /// fresh blank node carrying one property
+    Sub(MT),
+    /// nested list of simple items
+    List(Vec<MT>),
+}
+fn item() -> BoxedStrategy<Item> {
+    prop_oneof![
+        3 => iri().prop_map(Item::T),
+        3 => literal().prop_map(Item::T),
+        1 => Just(Item::T(rdf_nil())),
+        1 => shared_bn().prop_map(Item::T),
+        1 => quoted(1).prop_map(Item::T),
+        2 => literal().prop_map(Item::Sub),
+        2 => prop::collection::vec(prop_oneof![iri(), literal()], 0..3).prop_map(Item::List),
+    ]
+    .boxed()
+}
+fn frag_list(tag: usize) -> BoxedStrategy<Vec<MQ>> {
+    (
+        prop::collection::vec(item(), 0..4),
+        prop_oneof![6 => Just(0u8), 12 => 1..=12u8],
+        prop_oneof![4 => Just(1u8), 6 => 0..=9u8],
+        gpool(),
+        gpool(),
+        0..4usize,
+        any::<bool>(),
+    )
+        .prop_map(move |(items, defect, headref, g, g2, k, flag)| build_list(tag, items, defect, headref, g, g2, k, flag))
+        .boxed()
+}
+fn build_list(tag: usize, items: Vec<Item>, defect: u8, headref: u8, g: Option<MT>, g2: Option<MT>, k: usize, flag: bool) -> Vec<MQ> {
+    let mut out = vec![];
+    let mut fresh = 0usize;
+    let new_bn = |fresh: &mut usize| {
+        *fresh += 1;
+        MT::bn(format!("f{tag}_x{fresh}"))
+    };
+    let x = |l: &str| MT::iri(format!("http://x/{l}"));
+    let n = items.len();
+    let node = |i: usize| MT::bn(format!("f{tag}_{i}"));
+    let head = if n == 0 { rdf_nil() } else { node(0) };
+    let k = if n == 0 { 0 } else { k % n };
+    for (i, it) in items.iter().enumerate() {
+        let val = match it {
+            Item::T(t) => t.clone(),
+            Item::Sub(l) => {
+                let b = new_bn(&mut fresh);
+                out.push(MQ::new(b.clone(), x("p"), l.clone(), g.clone()));
+                b
+            }
+            Item::List(sub) => {
+                if sub.is_empty() {
+                    rdf_nil()
+                } else {
+                    let nodes: Vec<MT> = sub.iter().map(|_| new_bn(&mut fresh)).collect();
+                    for (j, v) in sub.iter().enumerate() {
+                        out.push(MQ::new(nodes[j].clone(), rdf_first(), v.clone(), g.clone()));
+                        let nx = if j + 1 < sub.len() { nodes[j + 1].clone() } else { rdf_nil() };
+                        out.push(MQ::new(nodes[j].clone(), rdf_rest(), nx, g.clone()));
+                    }
+                    nodes[0].clone()
+                }
+            }
+        };
+        // rdf:first
+        if !(defect == 10 && i == k) {
+            let gg = if defect == 9 && i == k { g2.clone() } else { g.clone() };
+            out.push(MQ::new(node(i), rdf_first(), val, gg));
+        }
+        // rdf:rest
+        let last = i + 1 == n;
+        let next = if !last {
+            Some(node(i + 1))
+        } else {
+            match defect {
+                6 => Some(node(k)),
+                7 => None,
+                8 => Some(x("end")),
+                11 => Some(MT::string("end")),
+                _ => Some(rdf_nil()),
+            }
+        };
+        if let Some(nx) = next {
+            out.push(MQ::new(node(i), rdf_rest(), nx, g.clone()));
+        }
+    }
+    if n > 0 {
+        match defect {
+            1 => {
+                let upto = if flag { n } else { 1 };
+                for i in 0..upto {
+                    out.push(MQ::new(node(i), MT::Iri(rdf("type")), MT::Iri(rdf("List")), g.clone()));
+                }
+            }
+            2 => out.push(MQ::new(node(k), x("p"), MT::string("extra"), g.clone())),
+            3 => out.push(MQ::new(node(k), rdf_first(), x("second"), g.clone())),
+            4 => {
+                // second rdf:rest: to a fresh sub-tree, to nil, or to an IRI
+                let target = if flag {
+                    let b = new_bn(&mut fresh);
+                    out.push(MQ::new(b.clone(), x("p"), MT::string("only-via-second-rest"), g.clone()));
+                    b
+                } else if k + 1 < n {
+                    rdf_nil()
+                } else {
+                    x("other-rest")
+                };
+                out.push(MQ::new(node(k), rdf_rest(), target, g.clone()));
+            }
+            5 => {
+                let h2 = new_bn(&mut fresh);
+                out.push(MQ::new(h2.clone(), rdf_first(), x("h2"), g.clone()));
+                out.push(MQ::new(h2.clone(), rdf_rest(), node(k), g.clone()));
+                if flag {
+                    out.push(MQ::new(x("s2"), x("p"), h2, g.clone()));
+                }
+            }
+            12 => {
+                // a second, well-formed list sharing no node but the same referrer
+                let h = new_bn(&mut fresh);
+                out.push(MQ::new(h.clone(), rdf_first(), x("z"), g.clone()));
+                out.push(MQ::new(h.clone(), rdf_rest(), rdf_nil(), g.clone()));
+                out.push(MQ::new(x("s"), x("p"), h, g.clone()));
+            }
+            _ => {}
+        }
+    }
+    match headref {
+        0 => {}
+        1 => out.push(MQ::new(x("s"), x("p"), head, g.clone())),
+        2 => {
+            out.push(MQ::new(x("s"), x("p"), head.clone(), g.clone()));
+            out.push(MQ::new(x("s2"), x("p"), head, g.clone()));
+        }
+        3 => {
+            out.push(MQ::new(x("s"), x("p"), head.clone(), g.clone()));
+            out.push(MQ::new(x("s"), x("ns#q"), head, g.clone()));
+        }
+        4 => out.push(MQ::new(x("s"), x("p"), head, g2.clone())),
+        5 => out.push(MQ::new(MT::bn("?1"), x("p"), head, g.clone())),
+        6 => {
+            if head.is_bnode() {
+                out.push(MQ::new(x("s"), x("p"), x("o"), Some(head)));
+            }
+        }
+        7 => out.push(MQ::new(MT::triple(head, x("p"), x("o")), x("ns#q"), x("r"), g.clone())),
+        8 => out.push(MQ::new(x("s"), rdf_rest(), head, g.clone())),
+        _ => {
+            // the head is also a subject of something else and referenced once
+            out.push(MQ::new(x("s"), x("p"), head.clone(), g.clone()));
+            if head.is_bnode() {
+                out.push(MQ::new(head, x("ns#q"), MT::lit("1", xsd("integer")), g2.clone()));
+            }
+        }
+    }
+    out
+}
+
+/// asserted-and-quoted triples (annotation syntax candidates)
+fn frag_annot(tag: usize) -> BoxedStrategy<Vec<MQ>> {
+    let s = prop_oneof![3 => iri(), 2 => Just(MT::bn(format!("f{tag}_s"))), 1 => shared_bn()];
+    let p = prop_oneof![4 => pick(dense_preds()).prop_map(MT::Iri), 1 => Just(rdf_first()), 1 => Just(rdf_rest())];
+    let o = prop_oneof![3 => iri(), 3 => literal(), 2 => Just(MT::bn(format!("f{tag}_o"))), 1 => Just(rdf_nil()), 1 => shared_bn()];
+    (
+        (s, p, o),
+        prop::bool::weighted(0.8),
+        gpool(),
+        gpool(),
+        prop::bool::weighted(0.75),
+        prop::collection::vec((pred(), obj_atom()), 1..3),
+        0..4u8,
+    )
+        .prop_map(|((s, p, o), asserted, g, g2, same_graph, props, extra)| {
+            let mut out = vec![];
+            let t = MT::triple(s.clone(), p.clone(), o.clone());
+            if asserted {
+                out.push(MQ::new(s, p, o, g.clone()));
+            }
+            let ga = if same_graph { g.clone() } else { g2 };
+            for (q, v) in &props {
+                out.push(MQ::new(t.clone(), q.clone(), v.clone(), ga.clone()));
+            }
+            match extra {
+                1 => {
+                    // nested annotation
+                    let (q, v) = &props[0];
+                    let t2 = MT::triple(t.clone(), q.clone(), v.clone());
+                    out.push(MQ::new(t2, MT::iri("http://x/ns#q"), MT::iri("http://x/r"), ga));
+                }
+                2 => out.push(MQ::new(MT::iri("http://x/s"), MT::iri("http://x/p"), t, g)),
+                _ => {}
+            }
+            out
+        })
+        .boxed()
+}
+
+fn frag_random() -> BoxedStrategy<Vec<MQ>> {
+    prop::collection::vec(rand_quad(), 1..7).boxed()
+}
+
+/// one subject with several shorthand-candidate literals
+fn frag_literals(tag: usize) -> BoxedStrategy<Vec<MQ>> {
+    (
+        prop_oneof![iri(), Just(MT::bn(format!("f{tag}_l")))],
+        prop::collection::vec((pick(dense_preds()), literal()), 1..5),
+        gpool(),
+    )
+        .prop_map(|(s, pos, g)| pos.into_iter().map(|(p, o)| MQ::new(s.clone(), MT::Iri(p), o, g.clone())).collect())
+        .boxed()
+}
+
+fn fragment(tag: usize) -> BoxedStrategy<Vec<MQ>> {
+    prop_oneof![
+        3 => frag_shape(tag),
+        4 => frag_list(tag),
+        2 => frag_annot(tag),
+        3 => frag_random(),
+        2 => frag_literals(tag),
+    ]
+    .boxed()
+}
+
+const LABELS: &[&str] = &["a", "b", "c", "d", "e", "f", "g", "h", "b1", "b2", "x.y", "0z", "k-", "_u", "i", "j", "\u{e9}"];
+
+/// resolve "?k" references, then rename all labels with a shuffled pool (label order matters to the
+/// pretty-printer, which iterates blank nodes in term order)
+fn assemble(frags: Vec<Vec<MQ>>, names: Vec<String>) -> Vec<MQ> {
+    let quads: Vec<MQ> = frags.into_iter().flatten().collect();
+    let own: Vec<String> = all_bnodes(&quads).into_iter().filter(|l| !l.starts_with('?')).collect();
+    let resolve = |l: &str| -> String {
+        if let Some(k) = l.strip_prefix('?') {
+            let k: usize = k.parse().unwrap_or(0);
+            if own.is_empty() {
+                format!("s{k}")
+            } else {
+                own[(k * 7 + 3) % own.len()].clone()
+            }
+        } else {
+            l.to_string()
+        }
+    };
+    let quads: Vec<MQ> = quads.iter().map(|q| q.map_bnodes(&resolve)).collect();
+    let labels = all_bnodes(&quads);
+    let map: BTreeMap<String, String> = labels
+        .iter()
+        .enumerate()
+        .map(|(i, l)| (l.clone(), names.get(i).cloned().unwrap_or_else(|| format!("m{i}"))))
+        .collect();
+    quads.iter().map(|q| q.map_bnodes(&|b| map[b].clone())).collect()
+}
+
+fn prefixes() -> BoxedStrategy<Option<Vec<(String, String)>>> {
+    prop_oneof![
+        1 => Just(None),
+        1 => Just(Some(vec![])),
+        8 => prop::collection::vec((prop_oneof![5 => pick(PFX_PLAIN.to_vec()), 1 => pick(PFX.to_vec())], pick(NS.to_vec())), 1..7).prop_map(|v| {
+            let mut seen = BTreeSet::new();
+            Some(
+                v.into_iter()
+                    .filter(|(p, _)| seen.insert(p.to_string()))
+                    .map(|(p, n)| (p.to_string(), n.to_string()))
+                    .collect(),
+            )
+        }),
+    ]
+    .boxed()
+}
+
+fn to_default_graph(quads: &[MQ]) -> Vec<MQ> {
+    quads.iter().map(|q| MQ::new(q.s.clone(), q.p.clone(), q.o.clone(), None)).collect()
+}
+
+// ---------------------------------------------------------------- system under test
+
+#[derive(Clone, Debug, PartialEq)]
+enum Bad {
+    Config(String),
+    SerError(String),
+    SerPanic(String),
+    Syntax(String),
+    ParsePanic(String),
+    Duplicate(String),
+    NotIso(String),
+}
+impl Bad {
+    fn kind(&self) -> &'static str {
+        match self {
+            Bad::Config(_) => "config-rejected",
+            Bad::SerError(_) => "serializer-error",
+            Bad::SerPanic(_) => "serializer-panic",
+            Bad::Syntax(_) => "invalid-syntax",
+            Bad::ParsePanic(_) => "parser-panic",
+            Bad::Duplicate(_) => "statement-twice",
+            Bad::NotIso(_) => "not-isomorphic",
+        }
+    }
+    fn detail(&self) -> &str {
+        match self {
+            Bad::Config(s) | Bad::SerError(s) | Bad::SerPanic(s) | Bad::Syntax(s) | Bad::ParsePanic(s) | Bad::Duplicate(s) | Bad::NotIso(s) => s,
+        }
+    }
+}
+
+fn config(case: &Case) -> Result<TurtleConfig, String> {
+    let mut c = TurtleConfig::new().with_pretty(case.pretty);
+    if let Some(pm) = &case.prefixes {
+        let mut v: Vec<PrefixMapPair> = vec![];
+        for (p, n) in pm {
+            let p = Prefix::new(Box::<str>::from(p.as_str())).map_err(|e| format!("prefix: {e}"))?;
+            let n = Iri::new(Box::<str>::from(n.as_str())).map_err(|e| format!("namespace: {e}"))?;
+            v.push((p, n));
+        }
+        c = c.with_own_prefix_map(v);
+    }
+    let ind = case.indent.clone();
+    catch(move || c.with_indentation(ind)).map_err(|e| format!("indentation: {e}"))
+}
+
+fn serialize(case: &Case, quads: &[MQ]) -> Result<String, Bad> {
+    let cfg = config(case).map_err(Bad::Config)?;
+    let r: Result<Result<Vec<u8>, String>, String> = if case.turtle {
+        let g: Vec<[SimpleTerm<'static>; 3]> = quads.iter().map(MQ::to_triple).collect();
+        catch(|| {
+            let mut s = TurtleSerializer::new_stringifier_with_config(cfg);
+            s.serialize_graph(&g).map_err(|e| e.to_string())?;
+            Ok(s.as_utf8().to_vec())
+        })
+    } else {
+        let d: Vec<Spog<SimpleTerm<'static>>> = quads.iter().map(MQ::to_spog).collect();
+        catch(|| {
+            let mut s = TrigSerializer::new_stringifier_with_config(cfg);
+            s.serialize_dataset(&d).map_err(|e| e.to_string())?;
+            Ok(s.as_utf8().to_vec())
+        })
+    };
+    match r {
+        Err(p) => Err(Bad::SerPanic(p)),
+        Ok(Err(e)) => Err(Bad::SerError(e)),
+        Ok(Ok(bytes)) => String::from_utf8(bytes).map_err(|e| Bad::SerError(format!("output is not UTF-8: {e}"))),
+    }
+}
+
+fn parse(turtle_syntax: bool, txt: &str) -> Result<Vec<MQ>, Bad> {
+    let mut out = vec![];
+    let r = if turtle_syntax {
+        catch(|| turtle::parse_str(txt).for_each_triple(|t| out.push(MQ::from_triple(t))).map_err(|e| e.to_string()))
+    } else {
+        catch(|| trig::parse_str(txt).for_each_quad(|q| out.push(MQ::from_quad(q))).map_err(|e| e.to_string()))
+    };
+    match r {
+        Err(p) => Err(Bad::ParsePanic(p)),
+        Ok(Err(e)) => Err(Bad::Syntax(e)),
+        Ok(Ok(())) => Ok(out),
+    }
+}
+
+/// the effective input of a case: projected to the default graph for Turtle, duplicates removed
+fn effective(case: &Case) -> Vec<MQ> {
+    let q = if case.turtle { to_default_graph(&case.quads) } else { case.quads.clone() };
+    dedup(q)
+}
+
+struct Eval {
+    verdict: Result<(), Bad>,
+    output: Option<String>,
+    undecided: bool,
+}
+fn evaluate(case: &Case) -> Eval {
+    let input = effective(case);
+    let txt = match serialize(case, &input) {
+        Ok(t) => t,
+        Err(b) => return Eval { verdict: Err(b), output: None, undecided: false },
+    };
+    let parsed = match parse(case.turtle, &txt) {
+        Ok(p) => p,
+        Err(b) => return Eval { verdict: Err(b), output: Some(txt), undecided: false },
+    };
+    let distinct = dedup(parsed.clone());
+    if distinct.len() != parsed.len() {
+        let mut seen = BTreeSet::new();
+        let dup: Vec<String> = parsed.iter().filter(|q| !seen.insert((*q).clone())).map(MQ::show).collect();
+        return Eval {
+            verdict: Err(Bad::Duplicate(format!("statements present more than once in the parse: {dup:?}"))),
+            output: Some(txt),
+            undecided: false,
+        };
+    }
+    match iso::iso_exact_budget(&input, &parsed, Some(400_000)) {
+        Some(true) => Eval { verdict: Ok(()), output: Some(txt), undecided: false },
+        Some(false) => Eval {
+            verdict: Err(Bad::NotIso(iso::diff_summary(&input, &parsed))),
+            output: Some(txt),
+            undecided: false,
+        },
+        None => Eval { verdict: Ok(()), output: Some(txt), undecided: true },
+    }
+}
+
+// ---------------------------------------------------------------- trigger analysis (signatures)
+
+fn map_term(t: &MT, f: &dyn Fn(&MT) -> Option<MT>) -> MT {
+    if let Some(r) = f(t) {
+        return r;
+    }
+    match t {
+        MT::Triple(tr) => MT::triple(map_term(&tr[0], f), map_term(&tr[1], f), map_term(&tr[2], f)),
+        MT::Lit(l, d) => match f(&MT::Iri(d.clone())) {
+            // datatypes are IRIs too
+            Some(MT::Iri(d2)) => MT::Lit(l.clone(), d2),
+            _ => t.clone(),
+        },
+        x => x.clone(),
+    }
+}
+fn map_case(case: &Case, f: &dyn Fn(&MT) -> Option<MT>) -> Case {
+    let mut c = case.clone();
+    c.quads = case
+        .quads
+        .iter()
+        .map(|q| MQ::new(map_term(&q.s, f), map_term(&q.p, f), map_term(&q.o, f), q.g.as_ref().map(|g| map_term(g, f))))
+        .collect();
+    c
+}
+fn passes(case: &Case) -> bool {
+    evaluate(case).verdict.is_ok()
+}
+
+fn bnode_arcs(quads: &[MQ]) -> Vec<(String, String)> {
+    quads
+        .iter()
+        .filter_map(|q| match (&q.s, &q.o) {
+            (MT::Bnode(a), MT::Bnode(b)) => Some((a.clone(), b.clone())),
+            _ => None,
+        })
+        .collect()
+}
+/// nodes lying on a directed cycle of blank-node arcs
+fn cycle_nodes(arcs: &[(String, String)]) -> BTreeSet<String> {
+    let nodes: BTreeSet<String> = arcs.iter().flat_map(|(a, b)| [a.clone(), b.clone()]).collect();
+    let reach = |from: &str| -> BTreeSet<String> {
+        let mut seen = BTreeSet::new();
+        let mut todo = vec![from.to_string()];
+        while let Some(x) = todo.pop() {
+            for (a, b) in arcs {
+                if *a == x && seen.insert(b.clone()) {
+                    todo.push(b.clone());
+                }
+            }
+        }
+        seen
+    };
+    nodes.into_iter().filter(|n| reach(n).contains(n)).collect()
+}
+fn bnode_feature(quads: &[MQ]) -> &'static str {
+    let arcs = bnode_arcs(quads);
+    let cyc = cycle_nodes(&arcs);
+    if cyc.is_empty() {
+        return "no-cycle";
+    }
+    if arcs.iter().any(|(a, b)| cyc.contains(a) && !cyc.contains(b)) {
+        "cycle-with-out-tail"
+    } else {
+        "cycle"
+    }
+}
+fn list_feature(quads: &[MQ]) -> &'static str {
+    let count = |p: &MT| -> BTreeMap<(Option<MT>, MT), usize> {
+        let mut m = BTreeMap::new();
+        for q in quads {
+            if q.p == *p {
+                *m.entry((q.g.clone(), q.s.clone())).or_default() += 1;
+            }
+        }
+        m
+    };
+    if count(&rdf_rest()).values().any(|&n| n > 1) {
+        "node-with-two-rest"
+    } else if count(&rdf_first()).values().any(|&n| n > 1) {
+        "node-with-two-first"
+    } else {
+        "other"
+    }
+}
+fn nil_feature(quads: &[MQ]) -> &'static str {
+    let nil = rdf_nil();
+    let in_quoted = |t: &MT| {
+        let mut v = vec![];
+        t.constituents(&mut v);
+        t.is_triple() && v.iter().any(|x| **x == nil)
+    };
+    if quads.iter().any(|q| q.p == nil) {
+        "as-predicate"
+    } else if quads.iter().any(|q| q.g.as_ref() == Some(&nil)) {
+        "as-graph-name"
+    } else if quads.iter().any(|q| q.terms().iter().any(|t| in_quoted(t))) {
+        "in-quoted-triple"
+    } else if quads.iter().any(|q| q.terms().iter().any(|t| t.datatype() == Some(nil_str()))) {
+        "as-datatype"
+    } else {
+        "as-subject-or-object"
+    }
+}
+fn nil_str() -> &'static str {
+    "http://www.w3.org/1999/02/22-rdf-syntax-ns#nil"
+}
+const KEYWORDS: &[&str] = &["a", "true", "false", "prefix", "base", "graph"];
+
+/// Attribute a failing case to a trigger in the input by neutralising one feature at a time:
+/// the first neutralisation under which the case passes names the trigger.
+fn trigger(case: &Case) -> String {
+    // configuration
+    if case.indent != "  " {
+        let mut c = case.clone();
+        c.indent = "  ".into();
+        if passes(&c) {
+            let cls: String = case
+                .indent
+                .chars()
+                .map(|ch| match ch {
+                    ' ' => "sp".to_string(),
+                    '\t' => "tab".to_string(),
+                    '\n' => "lf".to_string(),
+                    '\r' => "cr".to_string(),
+                    other => format!("u{:04x}", other as u32),
+                })
+                .collect::<Vec<_>>()
+                .join("-");
+            return format!("indentation/{}", if cls.is_empty() { "empty".into() } else { cls });
+        }
+    }
+    if case.prefixes.as_ref().map(|p| !p.is_empty()).unwrap_or(true) {
+        let mut c = case.clone();
+        c.prefixes = Some(vec![]);
+        if passes(&c) {
+            // one prefix alone?
+            if let Some(pm) = &case.prefixes {
+                for pair in pm {
+                    let mut c1 = case.clone();
+                    c1.prefixes = Some(vec![pair.clone()]);
+                    if !passes(&c1) {
+                        let kw = KEYWORDS.contains(&pair.0.to_ascii_lowercase().as_str());
+                        return format!("prefix-map/{}", if kw { "keyword-like-prefix" } else { "single-prefix" });
+                    }
+                }
+                return "prefix-map/combination".into();
+            }
+            return "prefix-map/default".into();
+        }
+    }
+    // literals written bare
+    for dt in ["integer", "decimal", "double", "boolean"] {
+        let target = xsd(dt);
+        let c = map_case(case, &|t: &MT| match t {
+            MT::Lit(l, d) if *d == target => Some(MT::Lit(l.clone(), format!("http://x/dt-{dt}"))),
+            _ => None,
+        });
+        if passes(&c) {
+            return format!("bare-literal/{dt}");
+        }
+    }
+    // literals whose lexical form looks like a shorthand of another datatype
+    {
+        let c = map_case(case, &|t: &MT| match t {
+            MT::Lit(l, d) if ["integer", "decimal", "double", "boolean"].iter().any(|k| shorthand_ok(k, l)) => {
+                Some(MT::Lit(format!("x{l}"), d.clone()))
+            }
+            _ => None,
+        });
+        if passes(&c) {
+            return "bare-literal/lexical-of-other-datatype".into();
+        }
+    }
+    // language-tagged literals
+    {
+        let c = map_case(case, &|t: &MT| match t {
+            MT::Lang(l, tag) => Some(MT::string(format!("{l}@{tag}"))),
+            _ => None,
+        });
+        if passes(&c) {
+            return "language-tagged-literal".into();
+        }
+    }
+    // rdf:type written 'a'
+    {
+        let ty = MT::Iri(rdf("type"));
+        let c = map_case(case, &|t: &MT| if *t == ty { Some(MT::iri("http://x/type")) } else { None });
+        if passes(&c) {
+            return "rdf-type".into();
+        }
+    }
+    // collections
+    {
+        let (f, r) = (rdf_first(), rdf_rest());
+        let c = map_case(case, &|t: &MT| {
+            if *t == f {
+                Some(MT::iri("http://x/first"))
+            } else if *t == r {
+                Some(MT::iri("http://x/rest"))
+            } else {
+                None
+            }
+        });
+        if passes(&c) {
+            return format!("list/{}", list_feature(&effective(case)));
+        }
+    }
+    // rdf:nil written "()"
+    {
+        let nil = rdf_nil();
+        let c = map_case(case, &|t: &MT| if *t == nil { Some(MT::iri("http://x/nil")) } else { None });
+        if passes(&c) {
+            return format!("rdf-nil/{}", nil_feature(&effective(case)));
+        }
+    }
+    // quoted triples
+    {
+        let c = map_case(case, &|t: &MT| match t {
+            MT::Triple(_) => {
+                let mut h = 0u64;
+                for b in t.show().bytes() {
+                    h = h.wrapping_mul(1099511628211).wrapping_add(b as u64);
+                }
+                Some(MT::iri(format!("http://x/qt/{h:x}")))
+            }
+            _ => None,
+        });
+        if passes(&c) {
+            let eff = effective(case);
+            let annotated = eff.iter().any(|q| match &q.s {
+                MT::Triple(tr) => eff.iter().any(|a| a.g == q.g && a.s == tr[0] && a.p == tr[1] && a.o == tr[2]),
+                _ => false,
+            });
+            return format!("quoted-triple/{}", if annotated { "asserted-and-quoted" } else { "plain" });
+        }
+    }
+    // blank nodes
+    {
+        let labels = all_bnodes(&case.quads);
+        let c = map_case(case, &|t: &MT| match t {
+            MT::Bnode(b) => Some(MT::iri(format!("http://x/bn/{}", labels.iter().position(|l| l == b).unwrap_or(0)))),
+            _ => None,
+        });
+        if passes(&c) {
+            return format!("bnode/{}", bnode_feature(&effective(case)));
+        }
+    }
+    // graph names
+    if !case.turtle {
+        let mut c = case.clone();
+        c.quads = to_default_graph(&case.quads);
+        if passes(&c) {
+            let blank = case.quads.iter().any(|q| matches!(q.g, Some(MT::Bnode(_))));
+            return format!("named-graph/{}", if blank { "blank" } else { "iri" });
+        }
+    }
+    "unattributed".into()
+}
+
+// ---------------------------------------------------------------- abbreviation scanner (non-trivial rule)
+
+#[derive(Default, Debug)]
+struct Abbrev {
+    collection: u32,
+    nil_shorthand: u32,
+    property_list: u32,
+    anon: u32,
+    annotation: u32,
+    graph_kw: u32,
+    graph_block: u32,
+    pname: u32,
+    bare_number: u32,
+    bare_boolean: u32,
+    a_kw: u32,
+    semicolon: u32,
+    comma: u32,
+    quoted: u32,
+    label: u32,
+    unknown: u32,
+}
+impl Abbrev {
+    /// abbreviations named in the property statement
+    fn any_named(&self) -> bool {
+        self.collection + self.nil_shorthand + self.property_list + self.anon + self.annotation + self.graph_kw + self.pname
+            + self.bare_number + self.bare_boolean + self.a_kw
+            > 0
+    }
+}
+fn scan(txt: &str) -> Abbrev {
+    let cs: Vec<char> = txt.chars().collect();
+    let mut a = Abbrev::default();
+    let mut i = 0;
+    let n = cs.len();
+    let mut skip_decl = 0u8; // after PREFIX: skip the "p:" word
+    while i < n {
+        let c = cs[i];
+        match c {
+            '"' => {
+                let long = i + 2 < n && cs[i + 1] == '"' && cs[i + 2] == '"';
+                i += if long { 3 } else { 1 };
+                while i < n {
+                    if cs[i] == '\\' {
+                        i += 2;
+                        continue;
+                    }
+                    if cs[i] == '"' {
+                        if !long {
+                            i += 1;
+                            break;
+                        }
+                        if i + 2 < n && cs[i + 1] == '"' && cs[i + 2] == '"' {
+                            i += 3;
+                            break;
+                        }
+                    }
+                    i += 1;
+                }
+            }
+            '<' => {
+                if i + 1 < n && cs[i + 1] == '<' {
+                    a.quoted += 1;
+                    i += 2;
+                } else {
+                    while i < n && cs[i] != '>' {
+                        i += 1;
+                    }
+                    i += 1;
+                }
+            }
+            '[' => {
+                let mut j = i + 1;
+                while j < n && cs[j].is_whitespace() {
+                    j += 1;
+                }
+                if j < n && cs[j] == ']' {
+                    a.anon += 1;
+                    i = j + 1;
+                } else {
+                    a.property_list += 1;
+                    i += 1;
+                }
+            }
+            '(' => {
+                let mut j = i + 1;
+                while j < n && cs[j].is_whitespace() {
+                    j += 1;
+                }
+                if j < n && cs[j] == ')' {
+                    a.nil_shorthand += 1;
+                    i = j + 1;
+                } else {
+                    a.collection += 1;
+                    i += 1;
+                }
+            }
+            '{' => {
+                if i + 1 < n && cs[i + 1] == '|' {
+                    a.annotation += 1;
+                    i += 2;
+                } else {
+                    a.graph_block += 1;
+                    i += 1;
+                }
+            }
+            ';' => {
+                a.semicolon += 1;
+                i += 1;
+            }
+            ',' => {
+                a.comma += 1;
+                i += 1;
+            }
+            '@' => {
+                i += 1;
+                while i < n && (cs[i].is_ascii_alphanumeric() || cs[i] == '-') {
+                    i += 1;
+                }
+            }
+            '>' | ']' | ')' | '}' | '|' | '^' | '.' => i += 1,
+            c if c.is_whitespace() => i += 1,
+            _ => {
+                let st = i;
+                while i < n && !cs[i].is_whitespace() && !matches!(cs[i], ';' | ',' | '(' | ')' | '[' | ']' | '{' | '}' | '<' | '>' | '"' | '|' | '^') {
+                    i += 1;
+                }
+                let mut w: String = cs[st..i].iter().collect();
+                while w.ends_with('.') {
+                    w.pop();
+                }
+                if skip_decl > 0 {
+                    skip_decl -= 1;
+                    continue;
+                }
+                let first = w.chars().next().unwrap_or(' ');
+                let second = w.chars().nth(1).unwrap_or(' ');
+                if w == "a" {
+                    a.a_kw += 1;
+                } else if w.eq_ignore_ascii_case("PREFIX") && st > 0 && (cs[st - 1] == '\n') || (st == 0 && w.eq_ignore_ascii_case("PREFIX")) {
+                    skip_decl = 1;
+                } else if w == "GRAPH" {
+                    a.graph_kw += 1;
+                } else if w.starts_with("_:") {
+                    a.label += 1;
+                } else if w == "true" || w == "false" {
+                    a.bare_boolean += 1;
+                } else if first.is_ascii_digit() || (matches!(first, '+' | '-' | '.') && (second.is_ascii_digit() || second == '.')) {
+                    a.bare_number += 1;
+                } else if w.contains(':') {
+                    a.pname += 1;
+                } else if w.is_empty() {
+                } else {
+                    a.unknown += 1;
+                }
+            }
+        }
+    }
+    a
+}
+
+// ---------------------------------------------------------------- input classification
+
+fn classify(case: &Case, input: &[MQ], ctx: &mut Ctx) {
+    ctx.class(if case.pretty { "mode:pretty" } else { "mode:stream" });
+    ctx.class(if case.turtle { "syntax:turtle" } else { "syntax:trig" });
+    match &case.prefixes {
+        None => ctx.class("prefixes:default"),
+        Some(p) if p.is_empty() => ctx.class("prefixes:none"),
+        Some(p) => {
+            ctx.class("prefixes:custom");
+            if p.iter().any(|(x, _)| x.is_empty()) {
+                ctx.class("prefixes:has-empty-prefix");
+            }
+            if p.iter().any(|(_, n)| p.iter().any(|(_, m)| m != n && m.starts_with(n.as_str()))) {
+                ctx.class("prefixes:overlapping-namespaces");
+            }
+            if p.iter().any(|(x, _)| KEYWORDS.contains(&x.to_ascii_lowercase().as_str())) {
+                ctx.class("prefixes:keyword-like");
+            }
+        }
+    }
+    ctx.class(format!("indent:{:?}", case.indent));
+    let n = input.len();
+    ctx.class(format!("size:{}", match n { 0 => "0", 1..=5 => "1-5", 6..=15 => "6-15", 16..=30 => "16-30", _ => "31+" }));
+    let nb = all_bnodes(input).len();
+    ctx.class(format!("bnodes:{}", match nb { 0 => "0", 1..=3 => "1-3", 4..=8 => "4-8", _ => "9+" }));
+    match bnode_feature(input) {
+        "no-cycle" => {}
+        f => ctx.class(format!("bnode:{f}")),
+    }
+    // blank nodes spanning graphs / as graph names
+    let mut graphs_of: BTreeMap<String, BTreeSet<Option<MT>>> = BTreeMap::new();
+    for q in input {
+        for b in q.s.atoms_vec().into_iter().chain(q.o.atoms_vec()) {
+            if let MT::Bnode(l) = b {
+                graphs_of.entry(l.clone()).or_default().insert(q.g.clone());
+            }
+        }
+    }
+    if graphs_of.values().any(|s| s.len() > 1) {
+        ctx.class("bnode:spans-graphs");
+    }
+    if input.iter().any(|q| matches!(q.g, Some(MT::Bnode(_)))) {
+        ctx.class("graph-name:blank");
+    }
+    if input.iter().any(|q| matches!(q.g, Some(MT::Iri(_)))) {
+        ctx.class("graph-name:iri");
+    }
+    // lists
+    let has_first = input.iter().any(|q| q.p == rdf_first());
+    let has_rest = input.iter().any(|q| q.p == rdf_rest());
+    if has_first || has_rest {
+        ctx.class("list:first/rest-present");
+        match list_feature(input) {
+            "other" => {}
+            f => ctx.class(format!("list:{f}")),
+        }
+        let nodes: BTreeSet<&MT> = input.iter().filter(|q| q.p == rdf_rest() && q.s.is_bnode()).map(|q| &q.s).collect();
+        if nodes.iter().any(|b| !input.iter().any(|q| q.o == **b)) {
+            ctx.class("list:unreferenced-head");
+        }
+        if input.iter().any(|q| q.p == rdf_rest() && q.o.is_bnode() && cycle_nodes(&bnode_arcs(input)).contains(match &q.o { MT::Bnode(l) => l, _ => unreachable!() })) {
+            ctx.class("list:cyclic");
+        }
+    }
+    // quoted
+    let mut asserted_and_quoted = false;
+    let mut any_quoted = false;
+    for q in input {
+        for t in q.terms() {
+            if t.is_triple() {
+                any_quoted = true;
+            }
+        }
+        if let MT::Triple(tr) = &q.s {
+            if input.iter().any(|a| a.g == q.g && a.s == tr[0] && a.p == tr[1] && a.o == tr[2]) {
+                asserted_and_quoted = true;
+            }
+        }
+    }
+    if any_quoted {
+        ctx.class("quoted:present");
+    }
+    if asserted_and_quoted {
+        ctx.class("quoted:asserted-and-quoted");
+    }
+    // literals
+    for q in input {
+        let mut v = vec![];
+        q.s.atoms(&mut v);
+        q.o.atoms(&mut v);
+        for t in v {
+            if let MT::Lit(l, d) = t {
+                for dt in ["integer", "decimal", "double", "boolean"] {
+                    if *d == xsd(dt) {
+                        let ok = shorthand_ok(dt, l);
+                        ctx.class(format!("literal:{dt}:{}", if ok { "valid-shorthand" } else { "invalid-shorthand" }));
+                    }
+                }
+            }
+        }
+    }
+}
+/// Turtle grammar: INTEGER, DECIMAL, DOUBLE, BooleanLiteral (independent of the serializer's regexes)
+fn shorthand_ok(dt: &str, l: &str) -> bool {
+    let b = l.as_bytes();
+    let mut i = 0;
+    let digits = |i: &mut usize| {
+        let s = *i;
+        while *i < b.len() && b[*i].is_ascii_digit() {
+            *i += 1;
+        }
+        *i - s
+    };
+    match dt {
+        "boolean" => l == "true" || l == "false",
+        "integer" => {
+            if i < b.len() && (b[i] == b'+' || b[i] == b'-') {
+                i += 1;
+            }
+            digits(&mut i) > 0 && i == b.len()
+        }
+        "decimal" => {
+            if i < b.len() && (b[i] == b'+' || b[i] == b'-') {
+                i += 1;
+            }
+            digits(&mut i);
+            if i < b.len() && b[i] == b'.' {
+                i += 1;
+            } else {
+                return false;
+            }
+            digits(&mut i) > 0 && i == b.len()
+        }
+        "double" => {
+            if i < b.len() && (b[i] == b'+' || b[i] == b'-') {
+                i += 1;
+            }
+            let int = digits(&mut i);
+            let mut frac = 0;
+            let mut dot = false;
+            if i < b.len() && b[i] == b'.' {
+                dot = true;
+                i += 1;
+                frac = digits(&mut i);
+            }
+            // [0-9]+ '.' [0-9]* EXP | '.' [0-9]+ EXP | [0-9]+ EXP
+            if int == 0 && !(dot && frac > 0) {
+                return false;
+            }
+            if i < b.len() && (b[i] == b'e' || b[i] == b'E') {
+                i += 1;
+            } else {
+                return false;
+            }
+            if i < b.len() && (b[i] == b'+' || b[i] == b'-') {
+                i += 1;
+            }
+            digits(&mut i) > 0 && i == b.len()
+        }
+        _ => false,
+    }
+}
+
+trait AtomsVec {
+    fn atoms_vec(&self) -> Vec<&MT>;
+}
+impl AtomsVec for MT {
+    fn atoms_vec(&self) -> Vec<&MT> {
+        let mut v = vec![];
+        self.atoms(&mut v);
+        v
+    }
+}
+
+/// is the case inside the domain of the property?
+fn domain(case: &Case) -> Result<(), String> {
+    fn term(t: &MT, pos: char) -> Result<(), String> {
+        match t {
+            MT::Iri(i) => {
+                Iri::new(i.as_str()).map(|_| ()).map_err(|_| "iri".to_string())?;
+                // sophia_iri is itself under test (C09) and accepts some invalid IRIs: also ask an independent validator
+                oxiri::Iri::parse(i.as_str()).map(|_| ()).map_err(|_| "iri-disputed".to_string())
+            }
+            MT::Bnode(b) => {
+                if pos == 'p' {
+                    return Err("generalized".into());
+                }
+                sophia_api::term::BnodeId::new(b.as_str()).map(|_| ()).map_err(|_| "label".to_string())
+            }
+            MT::Lit(_, d) => {
+                if pos != 'o' {
+                    return Err("generalized".into());
+                }
+                if d == RDF_LANGSTRING {
+                    return Err("langString-without-tag".into());
+                }
+                Iri::new(d.as_str()).map(|_| ()).map_err(|_| "datatype".to_string())?;
+                oxiri::Iri::parse(d.as_str()).map(|_| ()).map_err(|_| "iri-disputed".to_string())
+            }
+            MT::Lang(_, tag) => {
+                if pos != 'o' {
+                    return Err("generalized".into());
+                }
+                sophia_api::term::LanguageTag::new(tag.as_str()).map(|_| ()).map_err(|_| "tag".to_string())
+            }
+            MT::Triple(tr) => {
+                if pos != 's' && pos != 'o' {
+                    return Err("generalized".into());
+                }
+                term(&tr[0], 's')?;
+                term(&tr[1], 'p')?;
+                term(&tr[2], 'o')
+            }
+            MT::Var(_) => Err("variable".into()),
+        }
+    }
+    for q in &case.quads {
+        term(&q.s, 's')?;
+        if !q.p.is_iri() {
+            return Err("generalized".into());
+        }
+        term(&q.p, 'p')?;
+        term(&q.o, 'o')?;
+        if let Some(g) = &q.g {
+            term(g, 'g')?;
+        }
+    }
+    if !case.indent.chars().all(|c| c.is_ascii_whitespace()) {
+        return Err("indentation-not-ascii-whitespace".into());
+    }
+    if let Some(pm) = &case.prefixes {
+        let mut seen = BTreeSet::new();
+        for (p, n) in pm {
+            if !seen.insert(p) {
+                return Err("duplicate-prefix".into());
+            }
+            if Prefix::new(p.as_str()).is_err() {
+                return Err("invalid-prefix".into());
+            }
+            if Iri::new(n.as_str()).is_err() {
+                return Err("invalid-namespace".into());
+            }
+        }
+    }
+    Ok(())
+}
+
+impl Check for C04 {
+    type Case = Case;
+    const ID: &'static str = "C04";
+    fn rule() -> String {
+        "datasets assembled from 1..4 fragments (random quads over a dense IRI/literal pool, blank-node shapes incl. cycles with in- and out-tails, rdf:first/rest structures with 12 kinds of malformation and 10 kinds of head reference, asserted-and-quoted triples, shorthand-candidate literals) with shuffled blank labels and statement order, x {pretty, streaming} x prefix map (default / empty / 1..6 pairs over overlapping namespaces, empty and keyword-like prefixes) x 9 indentation strings x {Turtle, TriG}; oracle = strict sophia parser accepts the output, no statement twice, iso_exact(input, parse). Non-trivial = pretty mode: a tokenizer over the output finds at least one abbreviation named in the statement (prefixed name, 'a', bare number/boolean, [ ] property list or anonymous node, ( ) collection, {| |} annotation, GRAPH block); streaming mode: the output factorises at least one subject or predicate (';' or ','), or contains a graph block or a quoted triple. Distinct by hash of the whole case.".into()
+    }
+    fn assumptions() -> Vec<String> {
+        vec![
+            "input duplicates are removed before serialising (the statement speaks of each statement being present exactly once)".into(),
+            "Turtle path: the dataset is projected to the default graph".into(),
+            "syntactic validity is judged by sophia's strict turtle/trig parsers (Rio), not by a second independent grammar".into(),
+            "indentation strings range over ASCII whitespace, the documented precondition of TurtleConfig::with_indentation (space, TAB, LF, CR, FF); a configuration refused by the API (panic) is counted as excluded/config-rejected".into(),
+            "isomorphism search is bounded to 400000 nodes; undecided cases are counted (class iso:undecided), never failed".into(),
+        ]
+    }
+    fn cases(tier: Tier) -> u32 {
+        tier.pick(250_000, 8_000_000)
+    }
+    fn strategy(_tier: Tier) -> BoxedStrategy<Case> {
+        let names = Just(LABELS.iter().map(|s| s.to_string()).collect::<Vec<_>>()).prop_shuffle();
+        let frags = (fragment(0), prop::option::weighted(0.6, fragment(1)), prop::option::weighted(0.35, fragment(2)), prop::option::weighted(0.15, fragment(3)))
+            .prop_map(|(a, b, c, d)| {
+                let mut v = vec![a];
+                v.extend(b);
+                v.extend(c);
+                v.extend(d);
+                v
+            });
+        let quads = (frags, names)
+            .prop_map(|(f, names)| dedup(assemble(f, names)))
+            .prop_shuffle()
+            .prop_flat_map(|q| {
+                let n = q.len();
+                (Just(q), prop::collection::vec(prop::bool::weighted(0.97), n..=n))
+            })
+            .prop_map(|(q, keep)| q.into_iter().zip(keep).filter(|(_, k)| *k).map(|(q, _)| q).collect::<Vec<MQ>>());
+        (quads, prop::bool::weighted(0.75), prefixes(), prop_oneof![40 => pick(INDENTS.to_vec()), 1 => pick(INDENTS_ODD.to_vec())], prop::bool::weighted(0.4))
+            .prop_map(|(quads, pretty, prefixes, indent, turtle)| Case {
+                quads,
+                pretty,
+                prefixes,
+                indent: indent.to_string(),
+                turtle,
+            })
+            .boxed()
+    }
+    fn fixed_cases(_tier: Tier, _seed: u64) -> Vec<Case> {
+        let mut out = vec![];
+        let s = MT::iri("http://x/s");
+        let p = MT::iri("http://x/p");
+        let mk = |quads: Vec<MQ>, pretty: bool, prefixes: Option<Vec<(String, String)>>, turtle: bool| Case {
+            quads,
+            pretty,
+            prefixes,
+            indent: "  ".into(),
+            turtle,
+        };
+        // every shorthand-candidate lexical x datatype
+        for l in NUM_LEX {
+            for d in num_dts() {
+                out.push(mk(vec![MQ::new(s.clone(), p.clone(), MT::Lit(l.to_string(), d.clone()), None)], true, None, true));
+            }
+        }
+        // every namespace x local part, with a prefix map over all namespaces
+        let all: Vec<(String, String)> = NS.iter().enumerate().map(|(i, n)| (if i == 0 { String::new() } else { format!("p{i}") }, n.to_string())).collect();
+        for n in NS {
+            for l in LOCALS {
+                let i = MT::iri(format!("{n}{l}"));
+                out.push(mk(
+                    vec![MQ::new(i.clone(), i.clone(), i.clone(), Some(i.clone())), MQ::new(s.clone(), p.clone(), MT::Lit("x".into(), format!("{n}{l}")), None)],
+                    true,
+                    Some(all.clone()),
+                    false,
+                ));
+            }
+        }
+        // every small shape, both directions, every labelling order of up to 4 nodes
+        let shapes = [
+            Shape::Cycle(1),
+            Shape::Cycle(2),
+            Shape::Cycle(3),
+            Shape::Rho(1, 1),
+            Shape::Rho(2, 1),
+            Shape::Rho(1, 2),
+            Shape::Rho(2, 2),
+            Shape::Rho(3, 1),
+            Shape::Path(3),
+            Shape::Tree(4),
+            Shape::Star(3),
+            Shape::TwoCycles(2),
+            Shape::Clique(3),
+        ];
+        for sh in shapes {
+            let (n, arcs) = sh.arcs();
+            if n > 4 {
+                continue;
+            }
+            let mut perms: Vec<Vec<usize>> = vec![];
+            permutations(n, &mut vec![], &mut perms);
+            for perm in perms {
+                for rev in [false, true] {
+                    let quads: Vec<MQ> = arcs
+                        .iter()
+                        .map(|&(a, b)| if rev { (b, a) } else { (a, b) })
+                        .map(|(a, b)| MQ::new(MT::bn(LABELS[perm[a]]), p.clone(), MT::bn(LABELS[perm[b]]), None))
+                        .collect();
+                    out.push(mk(quads, true, None, true));
+                }
+            }
+        }
+        out
+    }
+    fn run(case: &Case, ctx: &mut Ctx) {
+        if let Err(why) = domain(case) {
+            ctx.class(format!("excluded/{why}"));
+            return;
+        }
+        let input = effective(case);
+        classify(case, &input, ctx);
+        let ev = evaluate(case);
+        if let Err(Bad::Config(why)) = &ev.verdict {
+            // the API refused the configuration (documented panic of with_indentation, checked constructors)
+            ctx.class(format!("excluded/config-rejected:{}", why.split(':').next().unwrap_or("")));
+            return;
+        }
+        if ev.undecided {
+            ctx.class("iso:undecided");
+        }
+        if let Some(txt) = &ev.output {
+            let ab = scan(txt);
+            let mut named = |n: u32, name: &str, ctx: &mut Ctx| {
+                if n > 0 {
+                    ctx.class(format!("out:{}:{name}", if case.pretty { "pretty" } else { "stream" }));
+                }
+            };
+            named(ab.collection, "collection", ctx);
+            named(ab.nil_shorthand, "()", ctx);
+            named(ab.property_list, "[..]", ctx);
+            named(ab.anon, "[]", ctx);
+            named(ab.annotation, "{|..|}", ctx);
+            named(ab.graph_kw, "GRAPH", ctx);
+            named(ab.graph_block, "graph-block", ctx);
+            named(ab.pname, "prefixed-name", ctx);
+            named(ab.bare_number, "bare-number", ctx);
+            named(ab.bare_boolean, "bare-boolean", ctx);
+            named(ab.a_kw, "a", ctx);
+            named(ab.semicolon, ";", ctx);
+            named(ab.comma, ",", ctx);
+            named(ab.quoted, "<<..>>", ctx);
+            named(ab.label, "_:label", ctx);
+            named(ab.unknown, "UNKNOWN-TOKEN", ctx);
+            let nt = if case.pretty {
+                ab.any_named()
+            } else {
+                ab.semicolon + ab.comma + ab.graph_block + ab.quoted > 0
+            };
+            if nt && ev.verdict.is_ok() {
+                ctx.nontrivial();
+            }
+        }
+        if let Err(bad) = &ev.verdict {
+            let trig = trigger(case);
+            ctx.fail(
+                format!("{}/{}", if case.pretty { "pretty" } else { "stream" }, trig),
+                format!(
+                    "{}: {}\nconfig: pretty={} syntax={} indent={:?} prefixes={:?}\ninput:\n{}\noutput:\n{}",
+                    bad.kind(),
+                    bad.detail(),
+                    case.pretty,
+                    if case.turtle { "turtle" } else { "trig" },
+                    case.indent,
+                    case.prefixes,
+                    show_quads(&input),
+                    ev.output.as_deref().unwrap_or("(none)")
+                ),
+            );
+        }
+    }
+    fn show(case: &Case) -> serde_json::Value {
+        serde_json::json!({
+            "quads": case.quads.iter().map(MQ::show).collect::<Vec<_>>(),
+            "pretty": case.pretty, "prefixes": case.prefixes, "indent": case.indent, "turtle": case.turtle,
+        })
+    }
+    fn extra_evidence(_tier: Tier) -> serde_json::Value {
+        serde_json::json!({
+            "namespaces": NS, "prefix_names": PFX, "indentations": INDENTS, "indentations_rare": INDENTS_ODD,
+            "local_parts": LOCALS.len(), "shorthand_candidate_lexicals": NUM_LEX.len(),
+        })
+    }
+}
+
+fn permutations(n: usize, cur: &mut Vec<usize>, out: &mut Vec<Vec<usize>>) {
+    if cur.len() == n {
+        out.push(cur.clone());
+        return;
+    }
+    for i in 0..n {
+        if !cur.contains(&i) {
+            cur.push(i);
+            permutations(n, cur, out);
+            cur.pop();
+        }
+    }
+}
+
+pub fn main(opts: &Opts) -> i32 {
+    drive::<C04>(opts)
 }
 pub fn worker(_args: &[String]) -> i32 {
     2
